@@ -171,7 +171,7 @@ def make_scenario(seed, i):
             ctx_q = []
             for idx, k in enumerate(chosen):
                 sc["swap"].append({"name": k[0], "arity": k[1], "rows": [list(r) for r in fp[k]],
-                                   "style": rng.choice(["inferred", "explicit", "variadic"]),
+                                   "style": rng.choice(["inferred", "explicit", "variadic", "inferred-decorated"]),
                                    "yields": rng.choice(["true", "false", "mixed", "none"])})
                 if idx < 2:
                     rules, qs = _contexts(rng, k, fp[k], idx)
@@ -186,10 +186,10 @@ def make_scenario(seed, i):
     m = rng.randint(1, 5)
     sc["argcheck"] = {"templates": [rng.choice(_ARG_POOL) for _ in range(m)],
                       "caller": rng.choice(["api", "compiled", "compiled", "call", "call", "once", "findall"]),
-                      "split": rng.randint(0, m), "style": rng.choice(["inferred", "explicit", "variadic"])}
+                      "split": rng.randint(0, m), "style": rng.choice(["inferred", "explicit", "variadic", "inferred-decorated"])}
     sc["exc"] = {"query": rng.choice(_EXC_QUERIES), "succ": sorted(rng.sample([1, 2, 3], rng.randint(0, 3))),
                  "event": rng.randint(0, 7), "exc_class": rng.choice(["custom", "yp", "runtime", "key", "value"]),
-                 "style": rng.choice(["inferred", "explicit", "variadic"])}
+                 "style": rng.choice(["inferred", "explicit", "variadic", "inferred-decorated"])}
     return untup(sc)
 
 
@@ -237,9 +237,22 @@ def make_native(real, rows, arity, style, yields, counter=None):
     return env["native"]
 
 
+def _traced(f):
+    """an ordinary well-behaved decorator (functools.wraps): the decorated function presents f's signature"""
+    import functools
+
+    @functools.wraps(f)
+    def wrapper(*args, **kwargs):
+        return f(*args, **kwargs)
+    return wrapper
+
+
 def register(real, name, f, arity, style):
     if style == "inferred":
         real.yp.register_function(name, f)
+    elif style == "inferred-decorated":
+        # arity inferred from the number of function arguments, as documented: the function's (visible) signature
+        real.yp.register_function(name, _traced(f))
     elif style == "explicit":
         real.yp.register_function(name, f, arity=arity)
     else:
